@@ -11,7 +11,7 @@ from ..gen import docs as D
 from ..gen import queries as Q
 from ..gen.render import Renderer, canonical
 from ..ref import rfc9535 as ref
-from ..run import Stats, hyp_run, mix
+from ..run import Stats, hyp_run, mix, rng_for
 from ..strict import canon, jtype, short
 
 ID = "C01"
@@ -90,7 +90,7 @@ def t_random(seed, n, nspell):
 
     def body(x):
         doc, s = x
-        rng = random.Random(s)
+        rng = rng_for(s)
         segs, _ = Q.gen_segments(rng, doc, nmax=5)
         ast = ["q", "$", segs]
         stats.case()
